@@ -119,13 +119,19 @@ let ext_gw (hist : string) (res : string) (out : string) =
             | "E" :: "MQ" :: rest -> (try [int_of_string (Hashtbl.find (Gw_io.kv_tbl rest) "mid")] with Not_found -> [])
             | _ -> []) prefix) in
         let mids = uniq (mids_of prefix @ mqmids) in
+        (* plain silence: longer than the connect timeout and every retry budget (a session that should have
+           ended by then and has not, C10 / C13 / C34) *)
+        incr idx;
+        Printf.fprintf oc "H %d %s\n" !idx hrest;
+        List.iter (fun l -> output_string oc (l ^ "\n")) prefix;
+        Printf.fprintf oc "E ADV %d\nEND\n" (max ((rcount + 2) * rdelay + 207) 5407);
         List.iter (fun mid ->
             List.iter (fun (ev : string) ->
                 List.iter (fun d ->
                     incr idx;
                     Printf.fprintf oc "H %d %s\n" !idx hrest;
                     List.iter (fun l -> output_string oc (l ^ "\n")) prefix;
-                    Printf.fprintf oc "E ADV %d\nE %s\nE ADV %d\nEND\n" d ev ((rcount + 2) * rdelay + 207))
+                    Printf.fprintf oc "E ADV %d\nE %s\nE ADV %d\nEND\n" d ev (max ((rcount + 2) * rdelay + 207) 5407))
                   (delays rdelay rcount))
               (List.map (fun p -> "SN " ^ hex_of_bytes (pack p))
                  [Puback (nn 1, nn mid, nn 0); Pubrec (nn mid); Pubcomp (nn mid); Pubrel (nn mid); Regack (nn 1, nn mid, nn 0)] @
